@@ -23,7 +23,12 @@
 pub mod pipeline_gen;
 #[path = "process_kernels.rs"]
 mod kernels;
+#[path = "process_opana.rs"]
+mod opana;
+#[path = "process_argrec.rs"]
+mod argrec;
 
+use crate::allocmeter as meter;
 use crate::common::*;
 use minidump::*;
 use minidump_processor::{PendingProcessorStatSubscriptions, PendingProcessorStats, ProcessState, ProcessorOptions};
@@ -35,7 +40,7 @@ use pipeline_gen as pg;
 use std::collections::HashMap;
 use std::path::PathBuf;
 use std::sync::atomic::{AtomicU64, Ordering};
-use std::sync::mpsc;
+use std::sync::{mpsc, Arc};
 use std::time::{Duration, Instant};
 
 pub struct Process;
@@ -62,23 +67,32 @@ struct GenSupplier {
     all: Option<Vec<u8>>,
     /// generate a file for modules that have none: (seed, cpu, os, feat)
     fallback: Option<(u64, String, String, u32)>,
+    /// bytes of symbol files handed to the parser so far (the S of the memory budget)
+    served: Arc<AtomicU64>,
 }
 
 #[async_trait::async_trait]
 impl SymbolSupplier for GenSupplier {
     async fn locate_symbols(&self, module: &(dyn minidump_common::traits::Module + Sync)) -> Result<LocateSymbolsResult, SymbolError> {
         tokio::task::yield_now().await;
-        let name = module.code_file().to_string();
-        let bytes: Vec<u8> = if let Some(b) = &self.all {
-            b.clone()
-        } else if let Some(b) = self.syms.get(&name) {
-            b.clone()
-        } else if let Some((seed, cpu, os, feat)) = &self.fallback {
-            let mut rng = Rng::new(seed ^ fnv64(name.as_bytes()));
-            pg::gen_symbols(&mut rng, cpu, os, &name, module.base_address(), module.size().min(u32::MAX as u64) as u32, *feat)
-        } else {
+        // producing the bytes is the harness's own work (not charged to the code under test)
+        let bytes: Option<Vec<u8>> = meter::unmetered(|| {
+            let name = module.code_file().to_string();
+            if let Some(b) = &self.all {
+                Some(b.clone())
+            } else if let Some(b) = self.syms.get(&name) {
+                Some(b.clone())
+            } else if let Some((seed, cpu, os, feat)) = &self.fallback {
+                let mut rng = Rng::new(seed ^ fnv64(name.as_bytes()));
+                Some(pg::gen_symbols(&mut rng, cpu, os, &name, module.base_address(), module.size().min(u32::MAX as u64) as u32, *feat))
+            } else {
+                None
+            }
+        });
+        let Some(bytes) = bytes else {
             return Err(SymbolError::NotFound);
         };
+        self.served.fetch_add(bytes.len() as u64, Ordering::Relaxed);
         SymbolFile::from_bytes(&bytes).map(|symbols| LocateSymbolsResult { symbols, extra_debug_info: None })
     }
     async fn locate_file(&self, _module: &(dyn minidump_common::traits::Module + Sync), _file_kind: FileKind) -> Result<PathBuf, FileError> {
@@ -125,6 +139,11 @@ pub enum Pipe {
     Gen { seed: u64, cpu: String, os: String, feat: u32, opt: u32, mutation: Option<(u64, u32)> },
     File { name: String, opt: u32, mutation: (u64, u32), sym: (u64, u32) },
     Raw { dump: Vec<u8>, sym: Vec<u8>, opt: u32 },
+    /// one thread with a `stack`-byte stack walked by CFI in `step`-byte frames (≈ stack/step frames),
+    /// `symk` KiB of filler records in the symbol file: the memory-budget cases
+    Big { seed: u64, cpu: String, stack: u64, step: u64, symk: u64, opt: u32 },
+    /// an x86 dump whose frames execute inside FUNCs with the given names (argument recovery)
+    ArgRec { case: argrec::ArgCase, opt: u32 },
 }
 
 fn kv<'a>(f: &'a str, key: &str) -> Option<&'a str> {
@@ -169,6 +188,35 @@ pub fn parse_pipe(f: &[&str]) -> Option<Pipe> {
                 sym: pair_hex(kv(f[5], "sym")?)?,
             })
         }
+        "big" => {
+            if f.len() != 8 {
+                return None;
+            }
+            Some(Pipe::Big {
+                seed: kv(f[2], "seed")?.parse().ok()?,
+                cpu: kv(f[3], "cpu")?.to_string(),
+                stack: kv(f[4], "stack")?.parse().ok()?,
+                step: kv(f[5], "step")?.parse().ok()?,
+                symk: kv(f[6], "symk")?.parse().ok()?,
+                opt: kv(f[7], "opt")?.parse().ok()?,
+            })
+        }
+        "argrec" => {
+            if f.len() != 8 {
+                return None;
+            }
+            let names = kv(f[6], "names")?.split(',').map(unhex).collect::<Option<Vec<_>>>()?;
+            Some(Pipe::ArgRec {
+                case: argrec::ArgCase {
+                    seed: kv(f[2], "seed")?.parse().ok()?,
+                    step: kv(f[3], "step")?.parse().ok()?,
+                    stack: kv(f[4], "stack")?.parse().ok()?,
+                    espoff: kv(f[5], "espoff")?.parse().ok()?,
+                    names,
+                },
+                opt: kv(f[7], "opt")?.parse().ok()?,
+            })
+        }
         "raw" => {
             if f.len() != 5 {
                 return None;
@@ -202,7 +250,7 @@ fn materialise(p: &Pipe) -> Option<Materialised> {
             if let Some((s, k)) = mutation {
                 pg::mutate_dump(&mut dump, *s, *k);
             }
-            Some(Materialised { dump, supplier: GenSupplier { syms: b.syms, all: None, fallback: None }, evil: b.evil, opt: *opt, tags })
+            Some(Materialised { dump, supplier: GenSupplier { syms: b.syms, all: None, fallback: None, served: Default::default() }, evil: b.evil, opt: *opt, tags })
         }
         Pipe::File { name, opt, mutation, sym } => {
             if !TESTDATA.contains(&name.as_str()) {
@@ -224,20 +272,91 @@ fn materialise(p: &Pipe) -> Option<Materialised> {
             let tags = vec![format!("kind:file{}", if mutation.1 > 0 { "+mut" } else { "" }), format!("file:{name}")];
             Some(Materialised {
                 dump,
-                supplier: GenSupplier { syms: HashMap::new(), all: None, fallback: Some((sym.0, cpu.into(), os.into(), sym.1)) },
+                supplier: GenSupplier { syms: HashMap::new(), all: None, fallback: Some((sym.0, cpu.into(), os.into(), sym.1)), served: Default::default() },
                 evil: None,
                 opt: *opt,
                 tags,
             })
         }
+        Pipe::Big { seed, cpu, stack, step, symk, opt } => {
+            let (dump, syms) = build_big(*seed, cpu, *stack, *step, *symk)?;
+            let fr = stack / (*step).max(1);
+            let tags = vec![
+                "kind:big".into(),
+                format!("cpu:{cpu}"),
+                format!("big-frames:{}", match fr { 0..=99 => "<100", 100..=999 => "100-999", 1000..=9999 => "1k-10k", _ => ">=10k" }),
+                format!("big-symk:{}", match symk { 0 => "0", 1..=255 => "<256K", _ => ">=256K" }),
+            ];
+            Some(Materialised { dump, supplier: GenSupplier { syms, all: None, fallback: None, served: Default::default() }, evil: None, opt: *opt, tags })
+        }
+        Pipe::ArgRec { case, opt } => {
+            let (dump, syms) = argrec::build(case)?;
+            let longest = case.names.iter().map(|n| n.len()).max().unwrap_or(0);
+            let tags = vec!["kind:argrec".into(), "cpu:x86".into(), format!("argrec-name:{}", match longest { 0..=63 => "<64", 64..=1023 => "64-1023", _ => ">=1024" })];
+            Some(Materialised { dump, supplier: GenSupplier { syms, all: None, fallback: None, served: Default::default() }, evil: None, opt: *opt, tags })
+        }
         Pipe::Raw { dump, sym, opt } => Some(Materialised {
             dump: dump.clone(),
-            supplier: GenSupplier { syms: HashMap::new(), all: Some(sym.clone()), fallback: None },
+            supplier: GenSupplier { syms: HashMap::new(), all: Some(sym.clone()), fallback: None, served: Default::default() },
             evil: None,
             opt: *opt,
             tags: vec!["kind:raw".into()],
         }),
     }
+}
+
+/// The memory-budget pair: a dump with one module and one thread whose `stack`-byte stack (zero or
+/// pseudo-random bytes) is unwound by a CFI rule that never reads memory (`.cfa: sp step +`, return to a
+/// constant inside a FUNC with a line record), and a symbol file padded with `symk` KiB of FUNC / line /
+/// PUBLIC / FILE records.
+fn build_big(seed: u64, cpu: &str, stack: u64, step: u64, symk: u64) -> Option<(Vec<u8>, HashMap<String, Vec<u8>>)> {
+    use minidump::format as md;
+    use minidump_synth::*;
+    use test_assembler::{Endian, Section};
+    if stack > (64 << 20) || symk > (64 << 10) || step == 0 {
+        return None;
+    }
+    let (arch, symarch, spreg, modbase, sbase): (u16, &str, &str, u64, u64) = match cpu {
+        "amd64" => (md::ProcessorArchitecture::PROCESSOR_ARCHITECTURE_AMD64 as u16, "x86_64", "$rsp", 0x7f00_0040_0000, 0x7ffd_0000_0000),
+        "x86" => (md::ProcessorArchitecture::PROCESSOR_ARCHITECTURE_INTEL as u16, "x86", "$esp", 0x0040_0000, 0x2000_0000),
+        "arm64" => (md::ProcessorArchitecture::PROCESSOR_ARCHITECTURE_ARM64_OLD as u16, "arm64", "sp", 0x7f00_0040_0000, 0x7ffd_0000_0000),
+        _ => return None,
+    };
+    let endian = Endian::Little;
+    let mut rng = Rng::new(seed ^ 0xB16B_16B1_6B16_B16B);
+    let modsize: u32 = 0x10_0000;
+    let ra = modbase + 0x1011; // the caller's instruction (ra - 1) lies in FUNC 1000..1100
+    let regs = pg::Regs { ip: modbase + 0x1010, sp: sbase, fp: sbase, lr: ra, gen: [rng.next(), rng.next(), rng.next(), rng.next()] };
+    let ctx_bytes = pg::make_context(if cpu == "arm64" { "arm64old" } else { cpu }, false, &mut rng, &regs, false);
+    let ctx = Section::with_endian(endian).append_bytes(&ctx_bytes);
+    let bytes: Vec<u8> = if seed % 2 == 0 { vec![0u8; stack as usize] } else { (0..stack).map(|i| (i.wrapping_mul(0x9E37) >> 3) as u8).collect() };
+    let stack_mem = Memory::with_section(Section::with_endian(endian).append_bytes(&bytes), sbase);
+    let name = DumpString::new("/lib/big.so", endian);
+    let module = Module::new(endian, modbase, modsize, &name, 1, 2, None);
+    let si = SystemInfo::new(endian).set_processor_architecture(arch).set_platform_id(md::PlatformId::Linux as u32);
+    let thread = Thread::new(endian, 0x100, &stack_mem, &ctx);
+    let dump = SynthMinidump::with_endian(endian).add_system_info(si).add(name).add_module(module).add_thread(thread).add(ctx).add_memory(stack_mem).finish()?;
+    let mut s = String::with_capacity((symk as usize) << 10);
+    s.push_str(&format!("MODULE Linux {symarch} 000000000000000000000000000000000 big.so\n"));
+    s.push_str("FILE 0 /a/rather/long/path/to/the/source/file/of/the/deep/frame.cpp\n");
+    s.push_str("FUNC 1000 100 0 deep::frame(int, char const*, std::map<int, std::pair<int, int>>)\n1000 100 42 0\n");
+    s.push_str(&format!("STACK CFI INIT 0 {modsize:x} .cfa: {spreg} {step} + .ra: {ra}\n"));
+    let mut a: u64 = 0x2000;
+    let mut i = 0u64;
+    while (s.len() as u64) < (symk << 10) && a + 0x10 < modsize as u64 {
+        match i % 4 {
+            0 => s.push_str(&format!("FILE {} /filler/dir{}/file{}.rs\n", 1 + i / 4, i % 97, i)),
+            1 | 2 => {
+                s.push_str(&format!("FUNC {a:x} 10 0 filler::function_number_{i}(int, unsigned long)\n{a:x} 8 {} 0\n{:x} 8 {} 0\n", i % 1000, a + 8, i % 1000 + 1));
+                a += 0x10;
+            }
+            _ => s.push_str(&format!("PUBLIC {:x} 0 public_symbol_{i}\n", a + 4)),
+        }
+        i += 1;
+    }
+    let mut syms = HashMap::new();
+    syms.insert("/lib/big.so".to_string(), s.into_bytes());
+    Some((dump, syms))
 }
 
 /// what one run of the pipeline produced
@@ -260,7 +379,16 @@ fn evil_file(text: &str) -> Option<tempfile::NamedTempFile> {
     Some(f)
 }
 
-fn run_pipeline(m: Materialised) -> PipeResult {
+/// what the watchdog of a case needs to judge a tripped allocator guard
+#[derive(Default)]
+pub struct CaseShared {
+    meter: Arc<meter::Shared>,
+    /// total budget for the a-priori frame bound (0 until known)
+    apriori_total: AtomicU64,
+}
+
+fn run_pipeline(m: Materialised, cs: Arc<CaseShared>) -> PipeResult {
+    let shared = cs.meter.clone();
     let mut res = PipeResult { tags: m.tags.clone(), ..Default::default() };
     res.tags.push(format!("opt:{}", m.opt));
     let dump_len = m.dump.len();
@@ -294,6 +422,16 @@ fn run_pipeline(m: Materialised) -> PipeResult {
         + 64;
     // scanning asks the symbolizer about every candidate word (up to 160 per frame)
     let limit = walk_limit.saturating_mul(200).saturating_add(10_000).min(200_000_000);
+    let served = m.supplier.served.clone();
+    // the allocator guard of this case: 4x the budget for the a-priori frame bound (`walk_limit` =
+    // sum of stack bytes + 2 per thread + 64) and a generous guess of the symbol bytes
+    let s_hint: u64 = m.supplier.syms.values().map(|v| v.len() as u64).sum::<u64>()
+        + catch(|| dump.get_stream::<MinidumpModuleList>().map(|l| l.iter().count() as u64).unwrap_or(0)).unwrap_or(0)
+            * (m.supplier.all.as_ref().map(|v| v.len() as u64).unwrap_or(0) + if m.supplier.fallback.is_some() { 64 << 10 } else { 0 });
+    let (ap_total, ap_peak) = mem_budget(dump_len as u64, s_hint, walk_limit);
+    cs.apriori_total.store(ap_total, Ordering::SeqCst);
+    shared.hard_total.store(ap_total.saturating_mul(4).min(GUARD_TOTAL_CAP), Ordering::Relaxed);
+    shared.hard_live.store(ap_peak.saturating_mul(4).min(GUARD_LIVE_CAP), Ordering::Relaxed);
     let provider = Counting { inner: Symbolizer::new(m.supplier), calls: AtomicU64::new(0), limit, walks: AtomicU64::new(0), walk_limit };
     let evil = m.evil.as_deref().and_then(evil_file);
     let mut subs = PendingProcessorStatSubscriptions::default();
@@ -312,7 +450,28 @@ fn run_pipeline(m: Materialised) -> PipeResult {
         options.evil_json = evil.as_ref().map(|f| f.path());
     }
     let rt = tokio::runtime::Builder::new_current_thread().enable_all().build().unwrap();
+    // ---- metered section: processing and the renderings, nothing else (everything this thread asks the
+    // allocator for between `start` and `stop` is charged to the code under test)
+    meter::start(&shared);
     let processed = catch(|| rt.block_on(minidump_processor::process_minidump_with_options(&dump, &provider, options)));
+    let mut rendered: Vec<(&'static str, Result<Result<Vec<u8>, String>, String>)> = vec![];
+    if let Ok(Ok(state)) = &processed {
+        type R = fn(&ProcessState, &mut Vec<u8>) -> Result<(), String>;
+        let renderers: [(&'static str, R); 4] = [
+            ("print", |s, v| s.print(v).map_err(|e| e.to_string())),
+            ("print_brief", |s, v| s.print_brief(v).map_err(|e| e.to_string())),
+            ("print_json", |s, v| s.print_json(v, false).map_err(|e| e.to_string())),
+            ("print_json_pretty", |s, v| s.print_json(v, true).map_err(|e| e.to_string())),
+        ];
+        for (what, f) in renderers {
+            let r = catch(|| {
+                let mut v: Vec<u8> = vec![];
+                f(state, &mut v).map(|()| v)
+            });
+            rendered.push((what, r));
+        }
+    }
+    let mem = meter::stop();
     drop(evil);
     let state: ProcessState = match processed {
         Err(msg) => {
@@ -427,20 +586,16 @@ fn run_pipeline(m: Materialised) -> PipeResult {
         res.tags.push("limits-parsed".into());
     }
 
-    // ---- render
+    // ---- render (done above, inside the metered section)
     let mut json_compact: Option<Vec<u8>> = None;
     let mut text_full: Option<Vec<u8>> = None;
-    for (what, f) in [
-        ("print", Box::new(|s: &ProcessState, v: &mut Vec<u8>| s.print(v).map_err(|e| e.to_string())) as Box<dyn Fn(&ProcessState, &mut Vec<u8>) -> Result<(), String>>),
-        ("print_brief", Box::new(|s: &ProcessState, v: &mut Vec<u8>| s.print_brief(v).map_err(|e| e.to_string()))),
-        ("print_json", Box::new(|s: &ProcessState, v: &mut Vec<u8>| s.print_json(v, false).map_err(|e| e.to_string()))),
-        ("print_json_pretty", Box::new(|s: &ProcessState, v: &mut Vec<u8>| s.print_json(v, true).map_err(|e| e.to_string()))),
-    ] {
-        let mut v: Vec<u8> = vec![];
-        match catch(|| f(&state, &mut v)) {
+    let mut out_bytes = 0u64;
+    for (what, r) in rendered {
+        match r {
             Err(msg) => res.oracle.push(("render-panics".into(), format!("{what}: {msg}"))),
             Ok(Err(e)) => res.oracle.push(("render-fails".into(), format!("{what}: {e}"))),
-            Ok(Ok(())) => {
+            Ok(Ok(v)) => {
+                out_bytes += v.len() as u64;
                 if what.starts_with("print_json") {
                     match serde_json::from_slice::<serde_json::Value>(&v) {
                         Ok(_) => {
@@ -458,9 +613,75 @@ fn run_pipeline(m: Materialised) -> PipeResult {
             }
         }
     }
+    // ---- the memory budget (see `mem_budget`)
+    let frames_total: u64 = state.threads.iter().map(|t| t.frames.len() as u64).sum();
+    let sym_bytes = served.load(Ordering::Relaxed);
+    check_memory(&mut res, &mem, dump_len as u64, sym_bytes, frames_total, out_bytes);
     // ---- the kernels: inputs extracted from the dump / the state, answers from the state / the JSON
     res.kernel = catch(|| kernels::pipeline_kernels(&dump, &state, json_compact.as_deref(), text_full.as_deref(), &bounds)).unwrap_or(None);
+    // ---- argument recovery (x86 frames under option sets 2 and 3) against the model
+    if let Some((r2, a2)) = catch(|| argrec::argrec_kernel(&dump, &state, m.opt)).unwrap_or(None) {
+        if a2.contains('[') {
+            res.tags.push("argrec-compared".into());
+        }
+        res.kernel = Some(match res.kernel.take() {
+            Some((r, a)) => (format!("{r} // {r2}"), format!("{a} // {a2}")),
+            None => (format!("process kern {r2}"), a2),
+        });
+    }
     res
+}
+
+/// The memory budget of one pipeline case, as a function of D = dump length, S = bytes of symbol
+/// files served, F = frames produced (all threads). Justification in notes/C03.md ("Memory budget").
+pub fn mem_budget(d: u64, s: u64, f: u64) -> (u64, u64) {
+    let total = MEM_K0 + MEM_KD * d + MEM_KS * s + MEM_KF * f;
+    let peak = MEM_P0 + MEM_PD * d + MEM_PS * s + MEM_PF * f;
+    (total, peak)
+}
+pub const MEM_K0: u64 = 2 << 20;
+pub const MEM_KD: u64 = 64;
+pub const MEM_KS: u64 = 64;
+pub const MEM_KF: u64 = 256 << 10;
+pub const MEM_P0: u64 = 1 << 20;
+pub const MEM_PD: u64 = 32;
+pub const MEM_PS: u64 = 32;
+pub const MEM_PF: u64 = 96 << 10;
+/// ceilings of the allocator guard of one case (the guard is 4x the budget of the a-priori frame bound, at most these)
+const GUARD_TOTAL_CAP: u64 = 48 << 30;
+const GUARD_LIVE_CAP: u64 = 8 << 30;
+
+fn check_memory(res: &mut PipeResult, mem: &meter::Stats, d: u64, s: u64, f: u64, out_bytes: u64) {
+    let (bt, bp) = mem_budget(d, s, f);
+    if mem.total > bt || mem.peak > bp {
+        res.oracle.push((
+            "memory-over-budget".into(),
+            format!(
+                "processing + 4 renderings requested {} bytes in {} requests (budget {bt}), peak live {} (budget {bp}), largest request {}; dump {d} bytes, symbols served {s} bytes, {f} frames, {out_bytes} bytes rendered",
+                mem.total, mem.count, mem.peak, mem.max
+            ),
+        ));
+    }
+    let bucket = |x: u64, b: u64| -> &'static str {
+        // share of the budget used
+        match (x.saturating_mul(100) / b.max(1)) as u32 {
+            0 => "<1%",
+            1..=4 => "1-4%",
+            5..=19 => "5-19%",
+            20..=49 => "20-49%",
+            50..=100 => "50-100%",
+            _ => ">100%",
+        }
+    };
+    res.tags.push(format!("mem-total:{}", bucket(mem.total, bt)));
+    res.tags.push(format!("mem-peak:{}", bucket(mem.peak, bp)));
+    if let Ok(path) = std::env::var("VERIF_MEMSTATS") {
+        use std::io::Write;
+        if let Ok(mut fh) = std::fs::OpenOptions::new().create(true).append(true).open(path) {
+            let line = format!("{d} {s} {f} {} {} {} {} {out_bytes}\n", mem.total, mem.peak, mem.max, mem.count);
+            let _ = fh.write_all(line.as_bytes());
+        }
+    }
 }
 
 fn budget(len: usize) -> Duration {
@@ -489,12 +710,45 @@ fn run_with_budget(p: &Pipe) -> Option<PipeResult> {
     }
     let (tx, rx) = mpsc::channel();
     let t0 = Instant::now();
+    let cs = Arc::new(CaseShared::default());
+    let shared = cs.meter.clone();
+    let cs2 = cs.clone();
     let handle = std::thread::Builder::new().stack_size(16 << 20).spawn(move || {
-        let r = catch(|| run_pipeline(m));
+        let r = catch(|| run_pipeline(m, cs2));
         let _ = tx.send(r);
     });
     let Ok(handle) = handle else { return None };
-    match rx.recv_timeout(budget(len)) {
+    // wait in slices: a metered thread that trips the allocator's runaway guard is parked forever
+    let deadline = budget(len);
+    let got = loop {
+        match rx.recv_timeout(Duration::from_millis(20).min(deadline)) {
+            Err(mpsc::RecvTimeoutError::Timeout) => {
+                let req = shared.runaway_request.load(Ordering::SeqCst);
+                if req != 0 {
+                    let total = shared.runaway_total.load(Ordering::SeqCst);
+                    let ap = cs.apriori_total.load(Ordering::SeqCst);
+                    let mut r = PipeResult::default();
+                    r.process = "alloc-runaway".into();
+                    // the guard sits at 4x the budget of the a-priori frame bound unless that is above the
+                    // ceiling; below the ceiling a trip is a definite violation of the budget
+                    if total > ap || req > ap {
+                        r.oracle.push((
+                            "memory-over-budget".into(),
+                            format!("a dump of {len} bytes made processing/rendering request {req} bytes at once / {total} bytes in total; the budget for the largest number of frames its stacks allow is {ap} bytes: stopped by the allocator guard"),
+                        ));
+                    } else {
+                        r.tags.push("mem-guard-inconclusive".into());
+                    }
+                    return Some(r);
+                }
+                if t0.elapsed() >= deadline {
+                    break Err(mpsc::RecvTimeoutError::Timeout);
+                }
+            }
+            other => break other,
+        }
+    };
+    match got {
         Ok(Ok(mut r)) => {
             let _ = handle.join();
             let ms = t0.elapsed().as_millis();
@@ -536,10 +790,12 @@ impl Engine for Process {
         "process"
     }
     fn rule(&self) -> String {
-        "pipeline cases: (minidump bytes, per-module symbol bytes) pairs = minidump-synth dumps for 10 CPU kinds (x86 amd64 arm arm64 arm64-old mips mips64 ppc ppc64 sparc) x 5 OSes (threads with 16..4096-byte stacks seeded with return addresses and frame links, also at the top of the address space; modules; exception with own context and crashing amd64 code; memory-info list or Linux maps with regions up to 2^64-1; /proc limits with short/blank lines, lsb-release, cpuinfo, status, environ; misc info, handles, unloaded modules, crashpad/breakpad/mac streams, thread names), byte-mutated copies of them and of 7 repo dumps, symbol files from a grammar (MODULE/FILE/FUNC+lines/INLINE/PUBLIC/STACK CFI incl. rules that never touch memory/STACK WIN with extreme sizes) plus byte corruption, options 0..3 (stable_basic, stable_all, unstable_all, unstable_all+stat reporter+evil json); each run under catch_unwind and a 5 s + 1 ms/byte budget; frames per thread compared with stack bytes + 2; print, print_brief, print_json(false/true) rendered, JSON re-parsed. the kernel inputs of every processed state (limits text, by_addr regions and the region at each accessed address, module lists and frames) go to the Lean model and its answers are compared with the state / JSON / text report. kernel cases: /proc limits text (limitscase), guard-page region lists incl. ends at 2^64-1 (guardcase), push/call/pop/ret with rsp 0..16 and boundaries (pushcase), STACK WIN FPO records with u32 extremes (fpo) against the model; oracle-only sweep of crashing amd64 instructions (opscan: every opcode of the one-byte and 0F maps x 128 ModRM/SIB forms x prefixes; op: guided and random bytes). non-trivial = the dump was readable and processing returned a ProcessState that was rendered (pipeline) / the kernel produced a non-empty answer (kernel); distinct = distinct case line".into()
+        use std::sync::atomic::Ordering::Relaxed;
+        format!("pipeline cases: (minidump bytes, per-module symbol bytes) pairs = minidump-synth dumps for 10 CPU kinds (x86 amd64 arm arm64 arm64-old mips mips64 ppc ppc64 sparc) x 5 OSes (threads with 16..4096-byte stacks seeded with return addresses and frame links, also at the top of the address space; modules; exception with own context and crashing amd64 code; memory-info list or Linux maps with regions up to 2^64-1; /proc limits with short/blank lines, lsb-release, cpuinfo, status, environ; misc info, handles, unloaded modules, crashpad/breakpad/mac streams, thread names), byte-mutated copies of them and of 7 repo dumps, symbol files from a grammar (MODULE/FILE/FUNC+lines/INLINE/PUBLIC/STACK CFI incl. rules that never touch memory/STACK WIN with extreme sizes) plus byte corruption, `big` pairs (one thread, 4 KiB..16 MiB stack walked by CFI in 1..65536-byte frames, 0..8 MiB of symbol records), `argrec` pairs (x86 frames inside FUNCs with generated names: nested templates/parentheses, unbalanced nesting, up to 1200 arguments, multi-byte characters and white space), options 0..3 (stable_basic, stable_all, unstable_all, unstable_all+stat reporter+evil json); each run under catch_unwind, a 5 s + 1 ms/byte budget and a counting allocator (process_minidump_with_options + 4 renderings: total requested <= {} + {}*D + {}*S + {}*F bytes, peak live <= {} + {}*D + {}*S + {}*F, D dump bytes, S symbol bytes served, F frames); frames per thread compared with stack bytes + 2; print, print_brief, print_json(false/true) rendered, JSON re-parsed. the kernel inputs of every processed state (limits text, by_addr regions and the region at each accessed address, module lists and frames; for x86 states under options 2/3 the frames' stack pointers, names, eax and the stack bytes) go to the Lean model and its answers are compared with the state / JSON / text report (incl. the recovered arguments). kernel cases: /proc limits text (limitscase), guard-page region lists incl. ends at 2^64-1 (guardcase), push/call/pop/ret with rsp 0..16 and boundaries (pushcase), STACK WIN FPO records with u32 extremes (fpo) against the model. crashing-instruction cases: opsweep = one opcode byte of the one-byte / 0F / 0F38 / 0F3A maps under one prefix string (legacy, REX, VEX, EVEX) x ModRM mod x reg x rm{{0,3,4,5}} x 4 SIB forms, decoded by yaxpeax-x86, abstracted, shape judged, instructions with an opcode the analysis distinguishes (and one per operand-shape signature) run through the real pipeline with a register profile and compared with MdModel.OpAnalysis (properties, memory accesses, instruction-pointer update, flip registers); opone = random tails behind 20 prefix/map heads and guided bytes, same comparison; op = guided bytes through the pipeline (oracle only). this run: {} decoded instructions abstracted and judged, {} of them run through the real analysis and compared. non-trivial = the dump was readable and processing returned a ProcessState that was rendered (pipeline) / the kernel produced a non-empty answer (kernel) / at least one instruction ran through the real analysis (opsweep, opone); distinct = distinct case line",
+            MEM_K0, MEM_KD, MEM_KS, MEM_KF, MEM_P0, MEM_PD, MEM_PS, MEM_PF, opana::DECODED.load(Relaxed), opana::REAL_RUNS.load(Relaxed))
     }
     fn exhaustive_part(&self) -> Option<String> {
-        Some("every (CPU kind, OS, option set) combination = 10 x 5 x 4 is generated at least twice per run; pushcase: all rsp in 0..=16 x {push, call, pop, ret}; opscan: all 256 opcodes of the one-byte and 0F maps (no prefix; REX.W: every second opcode in the quick tier, all in thorough) x 128 ModRM forms".into())
+        Some("every (CPU kind, OS, option set) combination = 10 x 5 x 4 is generated at least twice per run; pushcase: all rsp in 0..=16 x {push, call, pop, ret}; opsweep: all 256 opcode bytes of the one-byte, 0F, 0F38 and 0F3A maps under each of 7 legacy/REX prefix strings and of the VEX (C5, C4 map 2, C4 map 3) and EVEX (map 1; map 2 with mask) heads (quick; 32 prefix strings in the thorough tier), each with 4 mod x 8 reg x {rm 0, 3, 5, and rm 4 with 4 SIB bytes}".into())
     }
 
     fn generate(&self, tier: Tier, rng: &mut Rng, emit: &mut dyn FnMut(String)) {
@@ -604,8 +860,23 @@ impl Engine for Process {
                 (pg::F_SYM_FUNC | pg::F_SYM_CFI | pg::F_SYM_WIN | pg::F_SYM_CORRUPT) & rng.next() as u32
             ));
         }
+        // 3b. memory-budget cases: many frames, big stacks, big symbol files
+        let bigs: &[(u64, u64, u64)] = if quick {
+            &[(4 << 20, 4096, 0), (65536, 8, 16), (262144, 64, 512), (4096, 8, 2048), (1 << 20, 256, 64), (16384, 1, 0)]
+        } else {
+            &[(4 << 20, 4096, 0), (65536, 8, 16), (262144, 64, 512), (4096, 8, 2048), (1 << 20, 256, 64), (16384, 1, 0), (16 << 20, 65536, 0), (1 << 20, 16, 1024), (512, 8, 8192), (262144, 4, 4096)]
+        };
+        for (k, (stack, step, symk)) in bigs.iter().enumerate() {
+            for cpu in ["amd64", "x86", "arm64"] {
+                emit(format!("process big seed:{} cpu:{cpu} stack:{stack} step:{step} symk:{symk} opt:{}", rng.below(1 << 32), (k as u32 + if cpu == "x86" { 2 } else { 0 }) % 4));
+            }
+        }
         // 4. kernel cases (model-compared)
         kernels::generate(tier, rng, emit);
+        // 4b. argument recovery: x86 frames with generated function names
+        argrec::generate(tier, rng, emit);
+        // 5. the crashing-instruction analysis against the model (decoder sweep + random tails)
+        opana::generate(tier, rng, emit);
     }
 
     fn model_request(&self, case: &str) -> Option<String> {
@@ -653,7 +924,10 @@ impl Engine for Process {
             }
             return res;
         }
-        let req = kernels::exec(&f, &mut res);
+        let req = match f.get(1).copied() {
+            Some("opsweep") | Some("opone") => opana::exec(&f, &mut res),
+            _ => kernels::exec(&f, &mut res),
+        };
         LAST.with(|l| *l.borrow_mut() = Some((case.to_string(), req)));
         res
     }
@@ -669,6 +943,22 @@ impl Engine for Process {
                 let c = format!("process op code:{} rsp:4", hex(&code));
                 if still_fails(&c) {
                     return c;
+                }
+            }
+            return case.to_string();
+        }
+        if f.get(1) == Some(&"opsweep") && f.len() == 6 {
+            // name the single instruction
+            let pfx = kv(f[2], "pfx").map(|p| if p == "-" { vec![] } else { unhex(p).unwrap_or_default() }).unwrap_or_default();
+            let map = kv(f[3], "map").unwrap_or("1");
+            let op: u8 = kv(f[4], "op").and_then(|s| s.parse().ok()).unwrap_or(0);
+            let (items, _) = opana::sweep_items(&pfx, map, op, true);
+            for it in items {
+                for p in [it.real.unwrap_or(0), 0, 1, 2] {
+                    let c = format!("process opone code:{} prof:{p}", hex(&it.code));
+                    if still_fails(&c) {
+                        return c;
+                    }
                 }
             }
             return case.to_string();
@@ -724,5 +1014,7 @@ fn describe(p: &Pipe) -> String {
         Pipe::Gen { seed, cpu, os, feat, opt, mutation } => render_gen(*seed, cpu, os, *feat, *opt, *mutation),
         Pipe::File { name, mutation, .. } => format!("file {name} mut:{}:{}", mutation.0, mutation.1),
         Pipe::Raw { .. } => "raw".into(),
+        Pipe::ArgRec { case, .. } => format!("argrec seed:{} ({} names)", case.seed, case.names.len()),
+        Pipe::Big { seed, cpu, stack, step, symk, opt } => format!("process big seed:{seed} cpu:{cpu} stack:{stack} step:{step} symk:{symk} opt:{opt}"),
     }
 }
